@@ -24,10 +24,12 @@ OPS = ["==", "!=", "<", "<=", ">", ">=", "in", "not in"]
 OTHERS = {
     "int": "1", "float": "1.5", "str": "'a'", "bytes": "b'a'", "none": "None", "bool": "True", "list": "[1, 'a']", "tuple": "(1,)",
     "emptylist": "[]", "f-int": "r.n", "f-str": "r.s", "f-float": "r.f", "f-bool": "r.b", "f-list": "r.l", "f-path": "r.p", "f-ip": "r.ip",
-    "f-uri": "r.u", "cons": "net.ipnetwork('10.0.0.0/8')", "cons-legacy-subnet": "net.ipv4.Subnet('10.0.0.0/8')", "cons-legacy-addr": "net.ipv4.Address('10.1.2.3')",
+    "f-uri": "r.u", "f-int0": "r.n0", "f-str0": "r.s0", "f-path0": "r.p0", "f-list0": "r.l0", "f-float0": "r.f0", "f-bool0": "r.b0", "f-bytes0": "r.raw0",
+    "cons": "net.ipnetwork('10.0.0.0/8')", "cons-legacy-subnet": "net.ipv4.Subnet('10.0.0.0/8')", "cons-legacy-addr": "net.ipv4.Address('10.1.2.3')",
     "cons-ip": "net.ipaddress('10.1.2.3')", "cons-ip6net": "net.ipnetwork('::/0')", "type": "Type.string", "f-none": "r.none", "f-bytes": "r.raw", "str-empty": "''",
 }
-NONCONTAINER = {"int", "float", "none", "bool", "f-int", "f-float", "f-bool", "f-path", "f-ip", "f-none", "cons-ip", "cons-legacy-addr"}
+NONCONTAINER = {"int", "float", "none", "bool", "f-int", "f-float", "f-bool", "f-path", "f-ip", "f-none", "cons-ip", "cons-legacy-addr",
+                "f-int0", "f-path0", "f-float0", "f-bool0"}
 CONTEXTS = {
     "bare": "%s", "and-r": "(%s) and True", "and-l": "True and (%s)", "or-r": "(%s) or False", "or-l": "False or (%s)", "not": "not (%s)",
     "not-and": "not (%s) and True", "any": "any((%s) for _i in [1])", "chain-after-true": "%s", "chain-before-true": "%s",
@@ -37,8 +39,10 @@ CTX_EXPECT = {"chain3": False, "chain4": False, "chain-after-true": False, "chai
 HOW = ["Selector", "CompiledSelector", "make_selector", "make_selector_forced"]
 
 REC = rs("c8/rec", [["varint", "n"], ["string", "s"], ["float", "f"], ["boolean", "b"], ["string[]", "l"], ["path", "p"],
-                    ["net.ipaddress", "ip"], ["uri", "u"], ["string", "none"], ["bytes", "raw"]],
-         ["1", "'a'", "1.5", "True", "['a']", "'/a'", "'10.1.2.3'", "'http://a/a'", "None", "b'a'"])
+                    ["net.ipaddress", "ip"], ["uri", "u"], ["string", "none"], ["bytes", "raw"],
+                    ["varint", "n0"], ["string", "s0"], ["path", "p0"], ["string[]", "l0"], ["float", "f0"], ["boolean", "b0"], ["bytes", "raw0"]],
+         ["1", "'a'", "1.5", "True", "['a']", "'/a'", "'10.1.2.3'", "'http://a/a'", "None", "b'a'",
+          "0", "''", "''", "[]", "0.0", "False", "b''"])
 _R = []
 
 
@@ -61,10 +65,12 @@ def make(how, expr):
 
 
 def other_class(k):
-    if k in ("str", "f-str", "str-empty", "bytes", "f-bytes", "f-uri"):
+    if k in ("str", "f-str", "str-empty", "bytes", "f-bytes", "f-uri", "f-str0", "f-bytes0"):
         return "strlike"
-    if k in ("list", "tuple", "emptylist", "f-list"):
+    if k in ("list", "tuple", "emptylist", "f-list", "f-list0"):
         return "seq"
+    if k == "f-path0":
+        return "f-path"
     if k == "type":
         return "typed"
     if k.startswith("cons-legacy"):
@@ -295,7 +301,11 @@ def cases(tier):
     for e, hn in (("has_field(r, 'zz')", "has_field"), ("has_field(r, 's')", "has_field"), ("lower(r.zz) == 'a'", "lower"),
                   ("upper(r.zz) == 'A'", "upper"), ("lower(r.zz) != 'a'", "lower"), ("'a' in lower(r.zz)", "lower"),
                   ("field_contains(r, ['zz'], ['a'])", "field_contains"), ("field_equals(r, ['zz', 'zq'], ['a'])", "field_equals"),
-                  ("field_regex(r, ['zz'], '.*')", "field_regex"), ("field_contains(r, [], ['a'])", "field_contains")):
+                  ("field_regex(r, ['zz'], '.*')", "field_regex"), ("field_contains(r, [], ['a'])", "field_contains"),
+                  # None / '' among the values searched for: a missing field is still skipped, it does not "equal" None
+                  ("field_equals(r, ['zz'], [None])", "field_equals-none"), ("field_equals(r, ['zz', 'zq'], [None, ''])", "field_equals-none"),
+                  ("field_contains(r, ['zz'], [None], word_boundary=True)", "field_contains-none"), ("field_contains(r, ['zz'], [''])", "field_contains-none"),
+                  ("field_equals(r, ['zz'], [None], nocase=False)", "field_equals-none"), ("field_regex(r, ['zz'], '')", "field_regex")):
         yield {"kind": "helper", "helper": hn, "expr": e, "must_be_false": True}
     L = 5 if tier == "thorough" else 4
     for k in range(1, L + 1):
